@@ -364,6 +364,9 @@ func runProperty(prop, tier string) int {
 						rec.native = "reproduced"
 					} else {
 						rec.native = fmt.Sprintf("not-reproduced(failed=%v panic=%q assume=%v mismatch=%v)", o.failed, o.panicMsg, o.assumeF, o.mismatch)
+						if l.configs[rec.v.Harness]["native"] == "no" {
+							rec.native = "model-level (harness has no native twin)"
+						}
 					}
 				} else {
 					w := byDir[d][sl.idx]
